@@ -3,7 +3,8 @@ import WsVerif.Model.Dial
 namespace Ws.Driver
 open Ws Ws.Dial
 
-def parseU (s : String) : Option Nat := if s == "never" then none else some (natOr s)
+-- "neverT": a wss:// URL whose peer stays silent (the TLS handshake's first flight is never answered)
+def parseU (s : String) : Option Nat := if s == "never" || s == "neverT" then none else some (natOr s)
 
 def dErrStr : Dial.Err → String
   | .nil => "nil" | .canceled => "canceled" | .deadlineExceeded => "deadline" | .netTimeout => "nettimeout" | .io => "io"
